@@ -47,6 +47,21 @@ Theorem C06_session_only_for_own_flow : forall canon key evs r s loc,
 Proof. exact session_only_for_own_flow. Qed.
 Print Assumptions C06_session_only_for_own_flow.
 
+(* "The browser's OWN flow": both values were produced by one OAuthStart run, the one that drew the
+   flow's id (in the model a start seals the cookie under nonce = id and the state under id + 1, ids
+   are fresh).  The freshness of ids is what the code must provide; the correspondence monitor checks
+   it on the real OAuthStart runs of every case (clause k_own_start). *)
+Theorem C06_state_and_cookie_from_one_start : forall canon key evs r s loc,
+  admissible canon true key init_world (evs ++ [ECallback r]) = true ->
+  oauth_callback canon true key r = CbOk s loc ->
+  exists f v1 n1 v2 n2,
+    In f (w_flows (run canon true key init_world evs)) /\
+    cb_state r = WEnc v1 (Seal key n1 (PFlow f)) /\ cb_cookie r = Some (WEnc v2 (Seal key n2 (PFlow f))) /\
+    (n1 = f_sid f \/ n1 = f_sid f + 1) /\ (n2 = f_sid f \/ n2 = f_sid f + 1) /\
+    (canon = true -> n1 <> n2).
+Proof. exact state_and_cookie_from_one_start. Qed.
+Print Assumptions C06_state_and_cookie_from_one_start.
+
 (* ... and is FALSE of the faithful model of the unchanged tree ([strict = false]; known finding
    C06-K2): two sealed SESSIONS of this proxy, which open "as" the empty record, pass as state and
    CSRF cookie.  What does hold today, for every history: own flow, or that confusion with an empty
@@ -169,10 +184,10 @@ Theorem C06_monitor_accepts_model_target : forall hosts hh t o,
 Proof. exact target_model_holds. Qed.
 Print Assumptions C06_monitor_accepts_model_target.
 
-Theorem C06_monitor_accepts_model_flow : forall canon strict started issued r redir o,
-  wf_inputs started issued redir (cb_host r) ->
+Theorem C06_monitor_accepts_model_flow : forall canon strict starts issued r redir o,
+  wf_inputs starts issued redir (cb_host r) ->
   flow_mismatch canon strict r redir o = false ->
-  let j := judge (CFlow canon strict started issued r redir o) in
+  let j := judge (CFlow canon strict starts issued r redir o) in
   j = 0 \/ (j = 101 /\ canon = false) \/ (j = 102 /\ strict = false).
 Proof. exact flow_model_judged. Qed.
 Print Assumptions C06_monitor_accepts_model_flow.
